@@ -298,6 +298,7 @@ func init() {
 func execAmount(_ *State, line string) Result {
 	t := strings.Fields(line)
 	res := Result{Tags: []string{t[0]}}
+	c33Operands = c33Operands[:0]
 	var want *big.Int // property oracle: exact arithmetic, nil = must panic
 	wantSet := false
 	out, panicked, _ := Catch(func() string {
@@ -309,7 +310,7 @@ func execAmount(_ *State, line string) Result {
 			return "ok " + integerToBig(common.NewIntegerFromString(s)).String()
 		case "print":
 			n := parseBig(t[1])
-			s := integerFromBig(n).String()
+			s := c33Operand(n).String()
 			// property: printing then parsing gives the value back, and the text is normalised
 			back, ok := oracleParse(s)
 			if !ok || back.Cmp(n) != 0 || !normalForm(s) {
@@ -321,7 +322,7 @@ func execAmount(_ *State, line string) Result {
 			return "ok " + Hex([]byte(s))
 		case "json":
 			n := parseBig(t[1])
-			b, err := integerFromBig(n).MarshalJSON()
+			b, err := c33Operand(n).MarshalJSON()
 			if err != nil {
 				return "error"
 			}
@@ -341,7 +342,7 @@ func execAmount(_ *State, line string) Result {
 			return "ok " + integerToBig(common.NewInteger(u)).String()
 		case "add", "sub", "count", "cmp":
 			a, b := parseBig(t[1]), parseBig(t[2])
-			x, y := integerFromBig(a), integerFromBig(b)
+			x, y := c33Operand(a), c33Operand(b)
 			wantSet = true
 			switch t[0] {
 			case "add":
@@ -369,7 +370,7 @@ func execAmount(_ *State, line string) Result {
 		case "sign":
 			a := parseBig(t[1])
 			want, wantSet = big.NewInt(int64(a.Sign())), true
-			return fmt.Sprintf("ok %d", integerFromBig(a).Sign())
+			return fmt.Sprintf("ok %d", c33Operand(a).Sign())
 		case "mul", "div":
 			a := parseBig(t[1])
 			var k int64
@@ -383,28 +384,34 @@ func execAmount(_ *State, line string) Result {
 				}
 			}
 			if t[0] == "mul" {
-				return "ok " + integerToBig(integerFromBig(a).Mul(int(k))).String()
+				return "ok " + integerToBig(c33Operand(a).Mul(int(k))).String()
 			}
-			return "ok " + integerToBig(integerFromBig(a).Div(int(k))).String()
+			return "ok " + integerToBig(c33Operand(a).Div(int(k))).String()
 		case "product":
 			a, b, z := parseBig(t[1]), parseBig(t[2]), parseBig(t[3])
 			wantSet = true
 			if b.Sign() > 0 {
 				want = new(big.Int).Quo(new(big.Int).Mul(z, a), b)
 			}
-			return "ok " + integerToBig(integerFromBig(a).Ration(integerFromBig(b)).Product(integerFromBig(z))).String()
+			return "ok " + integerToBig(c33Operand(a).Ration(c33Operand(b)).Product(c33Operand(z))).String()
 		case "rcmp":
 			a, b, c, d := parseBig(t[1]), parseBig(t[2]), parseBig(t[3]), parseBig(t[4])
 			wantSet = true
 			if b.Sign() > 0 && d.Sign() > 0 {
 				want = big.NewInt(int64(new(big.Rat).SetFrac(a, b).Cmp(new(big.Rat).SetFrac(c, d))))
 			}
-			return fmt.Sprintf("ok %d", integerFromBig(a).Ration(integerFromBig(b)).Cmp(integerFromBig(c).Ration(integerFromBig(d))))
+			return fmt.Sprintf("ok %d", c33Operand(a).Ration(c33Operand(b)).Cmp(c33Operand(c).Ration(c33Operand(d))))
 		}
 		panic("harness: unknown op " + t[0])
 	})
 	res.Out = out
 	res.Nontrivial = !panicked
+	// operands are values: no operation may change the amount it was applied to
+	for _, o := range c33Operands {
+		if integerToBig(o.x).Cmp(o.n) != 0 && res.PropKey == "" {
+			res.PropKey, res.PropDesc = "C33:operand-mutated", "operation changed its operand: "+line+" left operand "+o.n.String()+" as "+integerToBig(o.x).String()
+		}
+	}
 	if panicked {
 		res.Tags = append(res.Tags, t[0]+":panic")
 	}
@@ -430,4 +437,21 @@ func normalForm(s string) bool {
 		return false
 	}
 	return isSignedDigits(s[:i]) && isSignedDigits(s[i+1:]) && s[0] != '+' && s[0] != '-'
+}
+
+// c33Operands records every Integer handed to the code under test in one op together with
+// its value, so that execAmount can check afterwards that operands were not mutated
+// (common.Integer wraps a big.Int whose storage is shared by value copies).
+var c33Operands []struct {
+	x common.Integer
+	n *big.Int
+}
+
+func c33Operand(n *big.Int) common.Integer {
+	x := integerFromBig(n)
+	c33Operands = append(c33Operands, struct {
+		x common.Integer
+		n *big.Int
+	}{x, new(big.Int).Set(n)})
+	return x
 }
